@@ -57,6 +57,9 @@ type Scenario struct {
 	Init    func(s *world.Stack) *world.World
 	Actions func(s *world.Stack, w *world.World) []Action
 	Monitor func(st *Step)
+	// Model (optional) advances a reference model kept in Post.Truth; it runs on
+	// every transition before Monitor, in the search and in every replay.
+	Model func(st *Step)
 	// Cover classifies a transition for the coverage histogram / vacuity guards.
 	Cover func(st *Step) []string
 	Depth int           // max path length (0 = until fixpoint)
@@ -109,6 +112,7 @@ func Explore(sc Scenario, deadline time.Time) Result {
 		sat = 13 * time.Hour
 	}
 	init := sc.Init(st)
+	init0 := init.Clone() // the initial world is pure harness data: built once, cloned for every replay
 	seen := map[string]bool{}
 	sigSeen := map[string]bool{}
 	k0 := hashKey(init.Canon(sat))
@@ -142,6 +146,9 @@ outer:
 				full := append(append([]string(nil), n.path...), a.Name)
 				step := &Step{S: st, Pre: n.w, Act: a, Obs: obs, Post: w2, Path: n.path}
 				step.Report = func(v Violation) { report(v, full) }
+				if sc.Model != nil {
+					sc.Model(step)
+				}
 				if obs != nil && obs.Panic != "" && sc.Monitor != nil {
 					// a panic is never silently part of the state graph
 					step.Report(Violation{Rule: "panic", Attrs: firstLine(obs.Panic), Detail: obs.Panic})
@@ -190,7 +197,7 @@ outer:
 		if len(n.path) == 0 {
 			continue
 		}
-		key, err := Replay(sc, n.path, nil)
+		key, err := replayFrom(sc, init0.Clone(), n.path, nil)
 		if err != nil {
 			report(Violation{Rule: "replay/diverged", Detail: err.Error()}, n.path)
 			continue
@@ -216,6 +223,10 @@ outer:
 // a fresh instance. visit (optional) sees every step. It returns the canonical
 // key of the final state.
 func Replay(sc Scenario, path []string, visit func(st *Step)) (string, error) {
+	return replayFrom(sc, nil, path, visit)
+}
+
+func replayFrom(sc Scenario, w *world.World, path []string, visit func(st *Step)) (string, error) {
 	st, err := world.NewStack(sc.Cfg)
 	if err != nil {
 		return "", err
@@ -224,7 +235,9 @@ func Replay(sc Scenario, path []string, visit func(st *Step)) (string, error) {
 	if sat == 0 {
 		sat = 13 * time.Hour
 	}
-	w := sc.Init(st)
+	if w == nil {
+		w = sc.Init(st)
+	}
 	var done []string
 	for _, name := range path {
 		var act *Action
@@ -240,8 +253,12 @@ func Replay(sc Scenario, path []string, visit func(st *Step)) (string, error) {
 		}
 		pre := w.Clone()
 		obs := act.Run(st, w)
+		step := &Step{S: st, Pre: pre, Act: *act, Obs: obs, Post: w, Path: done, Report: func(Violation) {}}
+		if sc.Model != nil {
+			sc.Model(step)
+		}
 		if visit != nil {
-			visit(&Step{S: st, Pre: pre, Act: *act, Obs: obs, Post: w, Path: done, Report: func(Violation) {}})
+			visit(step)
 		}
 		done = append(done, name)
 	}
